@@ -196,11 +196,72 @@ CHECKS['C12'] = dict(
     assumptions=['gcc 12 ASan detects use of freed caller buffers and double frees; the ledger knows every live library allocation',
                  'values: arbitrary bytes incl. embedded/trailing NUL, C strings, all-zero elements'])
 
+
+def header_methods():
+    """method tables of the lockable containers, extracted from the public headers of the working tree"""
+    import re, os
+    from vf import REPO
+    out = {}
+    for name, path in [('qtreetbl', 'containers/qtreetbl.h'), ('qhashtbl', 'containers/qhashtbl.h'), ('qlisttbl', 'containers/qlisttbl.h'),
+                       ('qlist', 'containers/qlist.h'), ('qqueue', 'containers/qqueue.h'), ('qstack', 'containers/qstack.h'),
+                       ('qgrow', 'containers/qgrow.h'), ('qvector', 'containers/qvector.h'), ('qlog', 'extensions/qlog.h')]:
+        try:
+            txt = open(os.path.join(REPO, 'include/qlibc', path)).read()
+        except OSError:
+            continue
+        m = re.search(r'struct %s_s\s*\{(.*?)\n\};' % name, txt, re.S)
+        if not m:
+            continue
+        for meth in re.findall(r'\(\*\s*(\w+)\s*\)\s*\(', m.group(1)):
+            out['%s.%s' % (name, meth)] = True
+    return sorted(out)
+
+
+C14_EXCLUDED = {'lock': 'is the lock operation itself', 'unlock': 'is the unlock operation itself', 'free': 'destroys the mutex',
+                'set_compare': 'does not take the lock', 'freemulti': 'operates on a returned array, not on the container', 'compare': 'private comparator slot', 'cmp': 'parameter of set_compare, not a method',
+                'namematch': 'private slot', 'namecmp': 'private slot'}
+
+
+def c14_evidence(res, spec, tier):
+    d = default_evidence(res, spec, tier)
+    allm = header_methods()
+    covered = res.names.get('functions_covered', set())
+    want = [m for m in allm if m.split('.')[1] not in C14_EXCLUDED]
+    d['functions_total_from_headers'] = len(want)
+    d['functions_covered'] = len([m for m in want if m in covered])
+    d['functions_uncovered'] = [m for m in want if m not in covered]
+    d['functions_excluded'] = {m: C14_EXCLUDED[m.split('.')[1]] for m in allm if m.split('.')[1] in C14_EXCLUDED}
+    d['function_outcome_classes'] = len(res.dist.get('function_outcome_classes', ()))
+    return d
+
+
+def c14_post(res, tier, seed, bdir, rdir):
+    other = [v for v in res.viols if v[0] != 'C14' and (v[1].startswith('crash') or v[1].startswith('hang'))]
+    if other:
+        res.inconclusive.append('%d call(s) crashed or hung inside the library before the lock balance could be judged (e.g. %s); those belong to C15/C11' % (len(other), other[0][1]))
+
+
+CHECKS['C14'] = dict(
+    title='every operation returns with the container lock released', level='fault_enumeration',
+    jobs=lambda tier, seed: [Job('h_lock', 'plain', wraps=('alloc', 'lock'))],
+    evidence=c14_evidence, post=c14_post,
+    rule='enumeration: every public function of every lockable container (method tables extracted from the public headers; uncovered ones are listed) x every argument/outcome variant '
+         '(success, NULL/zero-size argument, present/missing key, every index in [-n-2,n+2] for n<=7 and 11 representative indexes for n=40, empty, full, NULL stream, unwritable path) '
+         'x states n in {0,1,2,7,40} x entry depth {0,1} x (no fault | the k-th allocation of the call failing, k=1..K measured by a dry run, single failure and all-subsequent failure). '
+         'evaluation = one monitored call; oracle = per-thread lock depth from the trylock/unlock interposers equal before/after, plus a probe thread whose single trylock must succeed. '
+         'distinct = distinct (function, outcome class, fault mode, state, entry depth) tuples.',
+    exhaustive=True,
+    require=['calls_lock_balanced', 'fault_positions_injected', 'probe_trylocks'],
+    assumptions=['qLibc takes container locks only through pthread_mutex_trylock/unlock (Q_MUTEX_ENTER/LEAVE), which are interposed at link time',
+                 'allocation failures are injected through the malloc/calloc/realloc/strdup interposers (errno=ENOMEM)',
+                 'the outcome-variant table in h_lock.c is complete for the listed functions'])
+
 # --------------------------------------------------------------------------- manifest texts
 NOT_APPLICABLE = {}
 DESIGN_REF = {}
 LEVEL_NOTE = {}
 TECHNIQUE = {
+    'C14': 'lock-depth monitor in trylock/unlock interposers + probe-thread trylock, enumerated over functions x outcome classes x allocation-failure index',
     'C12': 'scribble-and-free of caller buffers + retained-copy pool re-verification + allocation-identity checks under ASan',
     'C11': 'ASan+UBSan+LSan (recover mode) + allocation ledger + poisoned guard zones over the C01-C10 workloads with exact-size caller buffers',
     'C10': 'reference-model oracle (array of fixed-size elements) on an exhaustive (n, index, element size, policy, capacity, op) sweep + random histories',
@@ -215,6 +276,7 @@ TECHNIQUE = {
     'C04': 'reference-model floor oracle + continuation multiset audit; CPU watchdog',
 }
 LEVEL_TEXT = {
+    'C14': 'Fault enumeration: each public function of each lockable container is executed for each outcome class it can produce and with each of its allocations failing in turn; the lock depth seen by the interposed pthread primitives must be balanced and a second thread must be able to take the lock.',
     'C12': 'Every put-like call gets throw-away exact-size buffers that are scribbled and freed immediately, every copying accessor of every container is exercised and its result retained, re-verified after later mutations and after release, and finally freed, all under ASan with an allocation ledger.',
     'C11': 'All container harnesses are re-executed on an address/undefined-behaviour/leak-checking build with exactly-sized caller buffers; every sanitizer report block is parsed and keyed by (class, library function), and a ledger proves every allocation is released with the container.',
     'C10': 'Every call on the real vector is compared with an array model for 5 element sizes x 3 growth policies x 4 initial capacities, every index in [-n-2,n+2] for n<=10, and random histories with resizes including to zero; the raw element buffer is compared after every operation.',
